@@ -1,13 +1,16 @@
 """C10 -- mode-summed tidal heating / potential derivatives: identities, limits, sign, and an ungrouped reference.
 
-E1 lattice.  One *case* fixes the configuration (entry point, rheology, l_max, eccentricity truncation, obliquity slot,
-orbit a/R, viscosity ratio); inside a case the complete physical grid spin/n x e is executed with scalar inputs and again
-through every array / mixed scalar-array input form.  Real code: `quick_tidal_dissipation` (entry 'quick') and
-`calculate_terms` + `collapse_modes` fed by hand (entry 'direct').
+E1 lattice.  A *configuration* is (entry point, rheology, orbit a/R, l_max, eccentricity truncation, obliquity slot); inside a
+configuration the complete physical grid spin/n x e is executed with scalar inputs and again through every array / mixed
+scalar-array input form.  The worker pool is fed one bundle (entry, rheology, orbit) per task, which runs the whole
+l_max x truncation x obliquity sub-lattice (compliance helpers of TidalPy cannot be cached by numba; bundling along the rheology
+keeps the JIT cost per worker small).  Real code: `quick_tidal_dissipation` (entry 'quick') and `calculate_terms` +
+`collapse_modes` fed by hand (entry 'direct', with tidal_scale = 0.6 and a hand-computed susceptibility).
 
 Oracles (sites in brackets; every comparison is relative to the sum of |mode terms| of the reference):
  (i)   heating == M_host (n dU/dM - spin dU/dOmega)                                   [identity]
- (ii)  e = 0, obliquity 0/None, spin == n: heating and the three derivatives are exactly 0   [rest-state]
+ (ii)  e = 0, spin == n, obliquity None: heating and the three derivatives are exactly 0; obliquity 0.0 through the general
+       inclination tables: |.| <= 1e-12 of the full-amplitude scale (3/2) G M^2 R^5 / a^6 * n    [rest-state]
  (iii) spin == n, truncation 2, l_max 2, obliquity 0/None: heating == (21/2)(-Im k2) G M^2 R^5 n e^2 / a^6, with
        -Im k2(n) from the closed form and (when n is the only forcing frequency) from the returned negative_imk_by_orderl
                                                                                          [classical-limit]
@@ -18,6 +21,8 @@ Oracles (sites in brackets; every comparison is relative to the sum of |mode ter
        heating and the three derivatives [ungrouped/*]; for the direct entry also the set of unique frequency
        signatures, their values, and every grouped (signature, l) term tuple [unique-frequencies/*, grouped-terms]
  (vi)  array and mixed scalar/array calls equal the element-wise scalar calls             [array-vs-scalar]
+Exceptions of the code under test are violations [<entry>/exception/<Type>]; two defects of the pinned tree have narrow sites
+of their own (see _classify_exception).
 """
 import math
 
@@ -52,21 +57,21 @@ VISC_RATIO = [1.0, 0.1, 10.0, 0.01, 100.0]       # eta = mu * x / n (Maxwell tim
 SEED_FACTOR = [1.0, 1.07, 0.93, 1.31, 0.77, 1.9]
 
 
+def configs(tier):
+    """The complete configuration sub-lattice executed inside one case: l_max x truncation x obliquity slot."""
+    obls = OBLIQ if tier == 'thorough' else OBLIQ_QUICK
+    return [dict(lmax=lmax, N=N, obl=ob) for lmax in LMAX for N in TRUNC + ([22] if lmax == 2 else []) for ob in obls]
+
+
 def cases(tier, seed):
+    """One case = (entry point, rheology, orbit).  A case runs the whole l_max x truncation x obliquity sub-lattice (and, inside every
+    configuration, the physical grid and all input forms).  Cases are cut along the rheology on purpose: TidalPy's compliance
+    helpers are numba functions that cannot be cached on disk, so every worker process pays ~5 s of JIT per rheology it meets."""
     f = SEED_FACTOR[seed % len(SEED_FACTOR)]
     x = VISC_RATIO[seed % len(VISC_RATIO)]
     orbits = A_OVER_R if tier == 'thorough' else A_OVER_R[:1]
-    obls = OBLIQ if tier == 'thorough' else OBLIQ_QUICK
-    out = []
-    for entry in ('quick', 'direct'):
-        for lmax in LMAX:
-            for N in TRUNC + ([22] if lmax == 2 else []):
-                for aor in orbits:
-                    for oi, ob in enumerate(obls):
-                        for rheo in RHEOS:
-                            out.append(dict(entry=entry, rheo=rheo, lmax=lmax, N=N, obl=ob, a_over_R=aor * f, x=x, f=f,
-                                            tier=tier))
-    return out
+    return [dict(entry=entry, rheo=rheo, a_over_R=aor * f, x=x, f=f, tier=tier)
+            for aor in orbits for entry in ('quick', 'direct') for rheo in RHEOS]
 
 
 # ------------------------------------------------------------------------------------------------------------------
@@ -148,9 +153,7 @@ def _classify_exception(ex, entry, rheo, scalar_love, zero_mode_kept):
 
 
 # ------------------------------------------------------------------------------------------------------------------
-def run_case(c):
-    from mc import env
-    env.tidalpy()
+def _run_config(c):
     import numpy as np
     from mc.refmodels import mode_sum as ms
     from TidalPy.tides.modes.mode_manipulation import find_mode_manipulators
@@ -507,7 +510,35 @@ def run_case(c):
                 cmp_elem(form, elem(ra, 0), S[(sr, e)], REF[(sr, e)], dict(spin_over_n=sr, e=e, element=0))
                 cmp_elem(form, elem(ra, 1), rs, ref2, dict(spin_over_n=sr, e=e, element=1))
 
-    return dict(status='pass', viol=V.list(), obs=(entry, rheo, lmax, N, obl, tuple(obs)), stats=stats)
+    nontrivial = [o for o in obs if float(o) != 0.0]
+    return dict(status='pass', viol=V.list(), obs=tuple(obs) if nontrivial else None, stats=stats)
+
+
+def run_case(c):
+    """c: dict(entry, rheo, a_over_R, x, f, tier [, only_config=dict(lmax, N, obl)] [, only=(spin ratio, e)])."""
+    from mc import env
+    env.tidalpy()
+    cfgs = [c['only_config']] if c.get('only_config') else configs(c.get('tier', 'quick'))
+    viol, stats, sub_obs = {}, {}, []
+    for cfg in cfgs:
+        flat = dict(c)
+        flat.pop('only_config', None)
+        flat.update(cfg)
+        r = _run_config(flat)
+        for site, detail in r['viol']:
+            if site in viol:
+                viol[site]['count'] += detail.get('count', 1)
+                viol[site]['configs_with_this_site'] += 1
+            else:
+                d = dict(detail)
+                d['config'] = dict(cfg)
+                d['configs_with_this_site'] = 1
+                viol[site] = d
+        for k, v in r['stats'].items():
+            stats[k] = max(stats.get(k, 0.0), v) if k.startswith('worst') else stats.get(k, 0) + v
+        sub_obs.append(r['obs'])
+    return dict(status='pass', viol=list(viol.items()), obs=(c['entry'], c['rheo'], tuple(sub_obs)), stats=stats,
+                n_configs=len(cfgs), sub_obs=sub_obs)
 
 
 def replay(case):
@@ -515,24 +546,39 @@ def replay(case):
 
 
 def run(ctx):
-    from mc.core import run_lattice
+    from mc.core import run_lattice, stable_hash
     cs = cases(ctx.tier, ctx.seed)
-    # heavy cases first (better load balance); the framework restores the original order for reporting
+    ncfg = len(configs(ctx.tier))
     res = run_lattice(
-        ctx, 'mc.props.C10:run_case', cs, chunk=4,
+        ctx, 'mc.props.C10:run_case', cs, chunk=1,
         rule='full product entry{quick_tidal_dissipation, calculate_terms+collapse_modes} x l_max 2..7 x truncation {2,4,6,10,20; 22 at l_max=2} '
-             'x rheology {maxwell, andrade, burgers, sundberg, voigt, newton, elastic, off, cpl, ctl} x obliquity slot (None + values) x orbit a/R; '
-             'inside each case the full grid spin/n x e with scalar inputs plus all-array, spin+e-array, e-array, spin-array, spin omitted, '
-             'e omitted, and one-argument (n, viscosity, shear, obliquity) array forms; distinct = distinct tuples of returned heating values',
+             'x rheology {maxwell, andrade, burgers, sundberg, voigt, newton, elastic, off, cpl, ctl} x obliquity slot (None + values) x orbit a/R '
+             '(evaluations = configurations; the pool is fed one (entry, rheology, orbit) bundle per task); inside each configuration the full '
+             'grid spin/n x e with scalar inputs plus all-array, spin+e-array, e-array, spin-array, spin omitted, e omitted, and one-argument '
+             '(n, viscosity, shear, obliquity) array forms; distinct = distinct non-zero tuples of returned heating values per configuration',
         exhaustive=True)
+    # the pool was fed bundles; report configurations
+    distinct = set()
     agg = {}
     for r in res:
+        for o in r.get('sub_obs') or []:
+            if o is not None:                       # configurations whose every call raised or returned exact zeros are trivial
+                distinct.add(stable_hash(o))
         for k, v in (r.get('stats') or {}).items():
             agg[k] = max(agg.get(k, 0.0), v) if k.startswith('worst') else agg.get(k, 0) + v
-    ctx.coverage.update(real_calls=agg.get('calls', 0), calls_raising=agg.get('exceptions', 0),
+    ctx.coverage['evaluations'] = ctx.coverage['evaluations'] - len(cs) + len(cs) * ncfg
+    ctx.coverage['distinct_nontrivial'] = len(distinct)
+    ctx.coverage['samples'] = [dict(c, only_config=configs(ctx.tier)[i * 7 % ncfg]) for i, c in enumerate(cs[::max(1, len(cs) // 3)][:3])]
+    # replay files should hold the smallest reproducer: narrow every violation to the first configuration that showed it
+    for v in ctx.violations:
+        cfg = (v.get('detail') or {}).get('config')
+        if cfg and 'only_config' not in v['case']:
+            v['case'] = dict(v['case'], only_config=cfg)
+    ctx.coverage.update(real_calls=agg.get('calls', 0), calls_raising=agg.get('exceptions', 0), bundles=len(cs), configurations_per_bundle=ncfg,
                         worst_identity_residual=agg.get('worst_identity'), worst_reference_residual=agg.get('worst_ref'),
                         worst_classical_limit_residual=agg.get('worst_classical'), worst_array_vs_scalar=agg.get('worst_array'),
                         worst_grouped_term_residual=agg.get('worst_group'), tolerance=TOL, tolerance_array=TOL_ARR,
                         sign_oracle_admitted=agg.get('sign_admitted', 0), sign_oracle_outside_validity=agg.get('sign_outside', 0))
-    ctx.note('calls={calls} raising={exceptions} worst: identity {worst_identity:.1e} reference {worst_ref:.1e} classical {worst_classical:.1e} '
-             'array {worst_array:.1e} grouped {worst_group:.1e}; sign oracle admitted {sign_admitted} / outside validity {sign_outside}'.format(**agg))
+    ctx.note('configurations={n} calls={calls} raising={exceptions} worst: identity {worst_identity:.1e} reference {worst_ref:.1e} classical '
+             '{worst_classical:.1e} array {worst_array:.1e} grouped {worst_group:.1e}; sign oracle admitted {sign_admitted} / outside validity '
+             '{sign_outside}'.format(n=len(cs) * ncfg, **agg))
